@@ -21,6 +21,25 @@ CLAIMED = {
     "C05": ("Cache coherence invariant (CacheOK) on layer B over register/unregister/table creation/freeing/recycling/Shrink/"
             "Reset; registered filters and identical unregistered twins are probed on the real world after every replayed "
             "sequence and compared with each other and with Select.", "7 C05"),
+    "C07": ("Layer A locks the world exactly while a query is open or a callback runs; seeded random histories on the real "
+            "world keep up to 6 (and up to 62) queries open across operations, advance and close them in arbitrary order, "
+            "attempt every structural operation while locked (must panic, nothing may change), use Set / events / filter "
+            "(un)registration / nested queries while locked (must work), close finished queries again, and the monitor "
+            "compares IsLocked with the specification after every event.", "7 C07"),
+    "C08": ("Fires(observer, event, changed, composition) is transcribed from the documentation into layer A; every replayed "
+            "operation's callbacks (observer, entity) are compared as a set with the specification's expectation: missing, "
+            "spurious and repeated callbacks, for random sets of up to 5 simultaneously registered observers drawn from the "
+            "whole space of specifications (event type x observed x with x without/exclusive), all operation kinds incl. batch "
+            "forms and custom events.", "7 C08"),
+    "C09": ("Layer A splits every emitting operation into pre-callbacks / change / post-callbacks; each recorded callback "
+            "carries a snapshot of the whole world taken inside the callback (through a query and the mapper), the number of "
+            "times the entity is yielded by a query, and IsLocked; the monitor requires the pre-state for removal events, the "
+            "post-state otherwise (whole batch), the documented lock state, the entity alive and seen exactly once.", "7 C09"),
+    "C10": ("Every layer-A action is guarded: precondition false => panic and nothing changes.  After each replayed history "
+            "the executor attempts a seed-sampled (thorough: complete) battery of misuse calls derived from the current state "
+            "(dead / recycled / zero handles in every checked single-entity operation, duplicate add, remove of a missing "
+            "component, empty component lists, omitted or dead relation targets, batch forms); the monitor requires the panic "
+            "and an identical projection, entity count and lock state afterwards.", "7 C10"),
     "C15": ("Shrink stutters on layer A while layer B's invariants keep holding after it and after every later step; "
             "capacity bounds and no-work-left after an unbounded Shrink are an action property.  Replays with Shrink at "
             "generator-chosen positions; a disagreement is attributed to C15 iff it disappears when the Shrink calls are "
